@@ -7,14 +7,26 @@ import (
 	"errors"
 	"fmt"
 	"io"
+	"unicode"
+	"unicode/utf16"
+	"unicode/utf8"
 )
 
-// UnmarshalJSON expects an io Reader whose data will be parsed using a streaming
-// JSON decoder and converted into a "Canonicalable" set of structures. The resulting
-// objects can then be re-encoded back into canonical JSON suitable for sending to
-// a hashing algorithm.
+// UnmarshalJSON expects an io Reader whose data will be checked for invalid
+// character encoding, parsed using a streaming JSON decoder and converted into a
+// "Canonicalable" set of structures. The resulting objects can then be re-encoded
+// back into canonical JSON suitable for sending to a hashing algorithm.
 func UnmarshalJSON(src io.Reader) (Canonicalable, error) {
-	dec := json.NewDecoder(src)
+	data, err := io.ReadAll(src)
+	if err != nil {
+		return nil, err
+	}
+	// The decoder silently replaces anything it cannot decode with U+FFFD, so
+	// invalid encoding must be detected before the text reaches it.
+	if err := checkEncoding(data); err != nil {
+		return nil, err
+	}
+	dec := json.NewDecoder(bytes.NewReader(data))
 	dec.UseNumber()
 
 	res, err := handleNextToken(dec)
@@ -53,6 +65,53 @@ func CanonicalJSON(src io.Reader) ([]byte, error) {
 		return nil, err
 	}
 	return obj.MarshalJSON()
+}
+
+// checkEncoding rejects JSON text with invalid character encoding: bytes that
+// are not valid UTF-8, and `\uXXXX` escapes of a UTF-16 surrogate that are not
+// part of a high and low surrogate pair, as these do not stand for any character.
+func checkEncoding(data []byte) error {
+	if !utf8.Valid(data) {
+		return errors.New("invalid UTF-8 encoding")
+	}
+	for i := 0; i < len(data); i++ {
+		if data[i] != '\\' {
+			continue
+		}
+		r := escapedUnit(data[i:])
+		i++ // the escaped character, which may be a backslash itself
+		if !utf16.IsSurrogate(r) {
+			continue
+		}
+		if utf16.DecodeRune(r, escapedUnit(data[i+5:])) == unicode.ReplacementChar {
+			return errors.New("invalid surrogate pair in unicode escape")
+		}
+		i += 6 // the low surrogate's escape
+	}
+	return nil
+}
+
+// escapedUnit provides the UTF-16 code unit of the `\uXXXX` escape sequence that
+// data starts with, or -1 if there is none.
+func escapedUnit(data []byte) rune {
+	if len(data) < 6 || data[0] != '\\' || data[1] != 'u' {
+		return -1
+	}
+	var r rune
+	for _, c := range data[2:6] {
+		switch {
+		case '0' <= c && c <= '9':
+			c -= '0'
+		case 'a' <= c && c <= 'f':
+			c -= 'a' - 10
+		case 'A' <= c && c <= 'F':
+			c -= 'A' - 10
+		default:
+			return -1
+		}
+		r = r<<4 | rune(c)
+	}
+	return r
 }
 
 func handleNextToken(dec *json.Decoder) (Canonicalable, error) {
